@@ -322,6 +322,14 @@ def currently_exiting_context(frame: types.FrameType) -> Optional[ExitingContext
             while code[offs] == op["CACHE"] and offs >= 2:
                 offs -= 2
             is_async = True
+        elif code[offs] == op["CACHE"]:
+            # While the awaited coroutine is running (as opposed to suspended),
+            # lasti points at SEND's inline cache entry on 3.12+
+            send_offs = offs
+            while code[send_offs] == op["CACHE"] and send_offs >= 2:
+                send_offs -= 2
+            if code[send_offs] == op["SEND"]:
+                offs = send_offs
         if code[offs] == op["SEND"]:
             offs -= 2
             is_async = True
